@@ -65,6 +65,26 @@ func Main(args []string) int {
 				}
 			}
 		}
+		if strings.HasPrefix(*dump, "bits:") {
+			bp := &bitprov{p: p}
+			for _, f := range p.Funcs {
+				if strings.HasPrefix(FuncName(f), (*dump)[5:]) && f.Signature.Recv() != nil {
+					r := bp.evalMethod(f)
+					fmt.Println("==", FuncName(f), "err:", r.Err, "double:", r.Double)
+					for i, rv := range r.Returns {
+						if rv.bits != nil {
+							fmt.Printf("   ret%d: %s\n", i, bvecStr(rv.bits))
+						} else if rv.slice != nil {
+							fmt.Printf("   ret%d: slice %s[%d:+%d]\n", i, rv.slice.base, rv.slice.off, rv.slice.n)
+						}
+					}
+					for _, k := range sortedKeysInt(r.Writes) {
+						w := r.Writes[k]
+						fmt.Printf("   buf[%d] = %s\n", k, bvecStr(w[:]))
+					}
+				}
+			}
+		}
 		if strings.HasPrefix(*dump, "sites:") {
 			for _, f := range p.Funcs {
 				if strings.Contains(FuncName(f), (*dump)[6:]) {
